@@ -34,6 +34,7 @@ def verify_functions(keys, *, prop=None, repo='/repo', scope=None, timeout_ms=10
         try:
             # ---- pass 1: finite scope
             ctx_f = Ctx(True, scope=dict(R.scope, **(scope or {})), enums=dict(R.enums), default_scope=default_scope)
+            ctx_f.infinite_sorts = set(getattr(R, 'infinite_sorts', ()))
             e1 = Exec(R, ctx_f, index, prop=prop, timeout_ms=timeout_ms)
             e1.interrupt_budget = dict(interrupts or {})
             install_axioms(e1)
@@ -88,8 +89,8 @@ def install_axioms(e: Exec, lemma_results=None):
     from .ty import parse_type, SV
     import ast as _ast
     st = State()
-    if e.R.datatypes:
-        e.ctx.declare_datatypes(e.R.datatypes)
+    if e.R.datatypes or e.R.datatypes_late:
+        e.ctx.declare_datatypes(list(e.R.datatypes) + list(e.R.datatypes_late))
     for cl in e.R.axioms:
         e.ctx.axioms.append(e.eval_clause(st, cl, {}))
     if e.ctx.finite:
